@@ -232,6 +232,7 @@ def main(argv=None):
             ctx.known_seen[f['signature']] = ctx.known_seen.get(f['signature'], 0)
         else:
             print(f'note: known finding no longer reproduces from its replay: {f["signature"]} (got {sigs})', flush=True)
+    printed_known = set(ctx.known_seen)
     prop.plan(ctx)
     # classify
     new = {}
@@ -241,6 +242,10 @@ def main(argv=None):
             ctx.known_seen[ksig] = ctx.known_seen.get(ksig, 0) + 1
             continue
         new.setdefault(sig, []).append((case, res, v))
+    for ks in ctx.known_seen:
+        if ks not in printed_known:
+            # the committed replay is stale (simulator changed) but exploration still meets the listed finding
+            print(f'KNOWN-FINDING: property={prop.ID} {known_sigs[ks]["what_fails"]}', flush=True)
     reported = []
     for sig, lst in sorted(new.items()):
         lst.sort(key=lambda x: (len(json.dumps(x[0], default=jdefault)), x[1]['stats']['steps']))
